@@ -14,7 +14,8 @@
 (*               iff it is the same object with unchanged arguments;       *)
 (*               "none" if the call returned.  With a PERSISTENT fault     *)
 (*               (every invocation from the index on fails, each with its  *)
-(*               own instance) `injected` is the FIRST one                 *)
+(*               own instance; streams AND user callbacks) `injected` is   *)
+(*               the FIRST one                                             *)
 (*     content0, content  digest of that object (type, args, attributes    *)
 (*               incl. marks, str()) when raised / when caught by the      *)
 (*               caller                                                    *)
